@@ -26,13 +26,14 @@ so the n bytes carried by a word appear in lanes n-1 .. 0 (first byte in the hig
 
 NOT PROVED / findings, see EXPLANATION.
 """
+import os
 import z3
 from hwv.contract import B, bvc, bits, zx
 from luna.gateware.stream.generator import ConstantStreamGenerator, StreamSerializer
 from luna.gateware.stream import StreamInterface
 from luna.gateware.usb.stream import SuperSpeedStreamInterface
 
-W = 24   # width of all spec-side arithmetic (lengths < 2^16, so nothing wraps)
+W = 18   # width of all spec-side arithmetic (lengths < 2^16, so nothing wraps)
 
 EXPLANATION = (
     "Unbounded inductive refinement proof of ConstantStreamGenerator (8-bit, 16-bit, 32-bit little endian; with and "
@@ -56,6 +57,13 @@ def lookup(idx, table, width):
     for i in reversed(range(len(table))):
         e = z3.If(idx == i, bvc(table[i], width), e)
     return e
+
+
+def times(x, k):
+    """x * k for k a power of two, as a shift (keeps the bit-blasted formulas small)."""
+    sh = k.bit_length() - 1
+    assert 1 << sh == k
+    return x if sh == 0 else z3.Concat(z3.Extract(x.size() - 1 - sh, 0, x), bvc(0, sh))
 
 
 def umin(a, b):
@@ -85,8 +93,8 @@ class Model:
         self.ml = zx(I["i_max_length"], W) if has_ml else bvc(L, W)
         self.idle, self.streaming, self.donep = ph == 0, ph == 1, ph == 2
         self.accept_start = z3.And(self.idle, self.start, z3.UGT(self.ml, 0))
-        self.N = umin(gm, bvc(L, W) - bpw * gs)
-        self.i0 = gi * bpw
+        self.N = umin(gm, bvc(L, W) - times(gs, bpw))
+        self.i0 = times(gi, bpw)
         self.final = z3.UGE(self.i0 + bpw, self.N)
         self.nb = z3.If(self.final, self.N - self.i0, bvc(bpw, W))
         self.take = z3.And(self.streaming, self.ready)
@@ -102,10 +110,9 @@ class Model:
             c.require("start_position_stable_while_active", z3.Implies(self.streaming, self.sp == gs),
                       why="`first` compares the position with the live start_position input; the user holds it during a transfer")
         # model well-formedness (part of the invariant)
-        c.inv("model_phase_legal", z3.ULE(ph, 2))
-        c.inv("model_start_in_range", z3.ULT(gs, NW))
-        c.inv("model_max_length_positive", z3.And(z3.UGT(gm, 0), z3.ULT(gm, 1 << 16)))
-        c.inv("model_words_done_below_total", z3.Implies(z3.Not(self.idle), z3.And(z3.ULT(self.i0, self.N), z3.ULT(gi, NW))))
+        c.inv("model_wellformed", z3.And(
+            z3.ULE(ph, 2), z3.ULT(gs, NW), z3.UGT(gm, 0), z3.ULT(gm, 1 << 16),
+            z3.Implies(z3.Not(self.idle), z3.And(z3.ULT(self.i0, self.N), z3.ULT(gi, NW)))))
         if not has_ml:
             c.inv("model_max_is_data_length", gm == L)
 
@@ -157,10 +164,8 @@ def make_generator(data, kind="byte", endian="little", mlw=None, domain="sync"):
                 ex.append(1 if j < r else 0)
                 val.append((ch[j] if endian == "little" else ch[r - 1 - j]) if j < r else 0)
             return ex, val
-        for j in range(bpw):
-            ex, val = lane_tab(j)
-            c.inv(f"read_register_lane{j}_is_word_on_offer",
-                  z3.Implies(z3.And(m.streaming, lookup(word, ex, 1) == 1), bits(rp, 8 * j + 7, 8 * j) == lookup(word, val, 8)))
+        c.inv("read_register_is_word_on_offer", z3.Implies(m.streaming, z3.And(*[
+            bits(rp, 8 * j + 7, 8 * j) == lookup(word, lane_tab(j)[1], 8) for j in range(bpw)])))   # padding lanes read as zero
 
         # ---- ensures (statement, clause by clause)
         mask = lambda n: lookup(n, [(1 << k) - 1 for k in range(bpw + 1)], VW) if VW > 1 else bvc(1, 1)
@@ -168,13 +173,14 @@ def make_generator(data, kind="byte", endian="little", mlw=None, domain="sync"):
                  clause="a started generator emits ...; per-byte valid bits covering exactly the bytes sent in a partial final "
                         "word (all bytes on other words); nothing is emitted outside a transfer")
         D = lambda idx: lookup(idx, list(data), 8)
-        base = bpw * word
+        base = times(word, bpw)
+        lanes = []
         for j in range(bpw):
             k = bvc(j, W) if endian == "little" else m.nb - 1 - j       # which of the word's bytes sits in lane j
-            c.ensure(f"payload_lane{j}_is_data_from_start_position",
-                     z3.Implies(z3.And(m.streaming, z3.ULT(bvc(j, W), m.nb)), bits(O["payload"], 8 * j + 7, 8 * j) == D(base + k)),
-                     clause="emits the data from the start position onward, limited to the maximum length in bytes "
-                            "(byte lane j of word i = constant[bpw*(start+i) + j])")
+            lanes.append(z3.Implies(z3.ULT(bvc(j, W), m.nb), bits(O["payload"], 8 * j + 7, 8 * j) == D(base + k)))
+        c.ensure("payload_valid_lanes_are_data_from_start_position", z3.Implies(m.streaming, z3.And(*lanes)),
+                 clause="emits the data from the start position onward, limited to the maximum length in bytes "
+                        "(k-th valid byte of word i = constant[bpw*(start+i) + k])")
         c.ensure("first_iff_first_word", (O["first"] == 1) == z3.And(m.streaming, m.gi == 0), clause="'first' on the first word (only)")
         c.ensure("last_iff_final_word", (O["last"] == 1) == z3.And(m.streaming, m.final),
                  clause="'last' on the final word (only): the word that reaches min(max length, remaining data)")
@@ -201,7 +207,7 @@ def make_generator(data, kind="byte", endian="little", mlw=None, domain="sync"):
             c.cover("nonzero_start_position", z3.And(m.streaming, m.gs != 0, m.take))
             c.cover("ends_by_data_length_from_offset", z3.And(m.take, m.final, m.gs != 0, m.gi != 0) if NW > 2 else z3.And(m.take, m.final, m.gs != 0))
         if mlw and L > 1:
-            c.cover("ends_by_max_length", z3.And(m.take, m.final, z3.ULT(m.gm, L - bpw * m.gs)))
+            c.cover("ends_by_max_length", z3.And(m.take, m.final, z3.ULT(m.gm, L - times(m.gs, bpw))))
         if VW > 1:
             c.cover("partial_final_word", z3.And(m.take, m.final, z3.ULT(m.nb, bpw))) if (L % bpw or mlw) else None
         c.cover_depth = min(NW + 8, 40)
@@ -289,6 +295,23 @@ def contracts(tier):
     quick = tier == "quick"
     gen_mlws = ((None, 16) if quick else (None, 8, 16)) if not NOMAX_ERROR else ((16,) if quick else (8, 16))
     gen_mlws2 = (None, 16) if not NOMAX_ERROR else (16,)
+    if quick:
+        for n in (1, 5, 18):
+            for mlw in gen_mlws:
+                yield ("ConstantStreamGenerator", f"byte_len{n}_{'max%d' % mlw if mlw else 'nomax'}",
+                       make_generator(_data(n), "byte", "little", mlw, "usb" if n % 2 else "sync"))
+        for n in (1, 6, 11):
+            for mlw in gen_mlws:
+                yield ("ConstantStreamGenerator", f"wide_little_len{n}_{'max%d' % mlw if mlw else 'nomax'}",
+                       make_generator(_data(n, 2), "wide", "little", mlw, "ss"))
+        if not NOMAX_ERROR:
+            yield ("ConstantStreamGenerator", "wide_big_len7_nomax", make_generator(_data(7, 2), "wide", "big", None, "ss"))
+        if os.environ.get("HWV_C27_BIG_ENDIAN_MAX"):      # demonstrates the big-endian + max_length finding (see EXPLANATION)
+            yield ("ConstantStreamGenerator", "wide_big_len7_max16", make_generator(_data(7, 2), "wide", "big", 16, "ss"))
+        yield ("ConstantStreamGenerator", "w16_little_len5_max16", make_generator(_data(5, 3), "w16", "little", 16, "sync"))
+        yield ("StreamSerializer", "len2_nomax", make_serializer(2, None, "usb"))
+        yield ("StreamSerializer", "len5_max8", make_serializer(5, 8, "sync"))
+        return
     # ---- 8-bit generator
     lens = (1, 2, 3, 5, 8, 18) if quick else tuple(range(1, 10)) + (16, 17, 18, 31, 32, 33, 64, 130, 255, 256, 300)
     for n in lens:
@@ -302,7 +325,7 @@ def contracts(tier):
     for n in wlens:
         for endian in ("little", "big"):
             for mlw in gen_mlws2:
-                if endian == "big" and mlw:
+                if endian == "big" and mlw and not os.environ.get("HWV_C27_BIG_ENDIAN_MAX"):
                     continue            # finding: see EXPLANATION (separate entry below keeps it visible)
                 yield ("ConstantStreamGenerator", f"wide_{endian}_len{n}_{'max%d' % mlw if mlw else 'nomax'}",
                        make_generator(_data(n, 2), "wide", endian, mlw, "ss"))
